@@ -36,7 +36,8 @@ def snap (s : Snap) : String :=
   s!"prob={joinWith "," (s.prob.map nodeView)} " ++
   s!"wo={joinWith "," (s.wo.map nodeView)} " ++
   s!"skt={if s.skOn then "on" else "off"},{s.skSize},{s.skSample},{s.skLen},{hex64 s.skCrc} " ++
-  s!"freq={joinWith "," (s.freqs.map (fun kf => s!"{kf.1}:{kf.2}"))}"
+  s!"freq={joinWith "," (s.freqs.map (fun kf => s!"{kf.1}:{kf.2}"))} " ++
+  s!"live={s.liveK},{s.liveV}"
 
 def obs : Obs → String
   | .ok => "ok"
@@ -74,6 +75,7 @@ def parseOp (line : String) : Option Op :=
   | ["snap"] => some .snap
   | ["freq", k] => do some (.freq (← k.toNat?))
   | ["policy"] => some .snap
+  | ["drop"] => some .snap
   | w :: _ => if w.startsWith "skt." || w.startsWith "dq." then some .snap else none
   | _ => none
 
@@ -257,6 +259,10 @@ def parseSnapField (sn : Snap) (kv : String) : Option Snap :=
                      skLen := ← len.toNat?, skCrc := ← hexVal crc }
     | _ => none
   | ["freq", v] => ((splitNonEmpty v ",").mapM parsePair).map fun x => { sn with freqs := x }
+  | ["live", v] =>
+    match v.splitOn "," with
+    | [a, b] => do some { sn with liveK := ← a.toNat?, liveV := ← b.toNat? }
+    | _ => none
   | _ => none
 
 def emptySnap : Snap :=
@@ -292,6 +298,7 @@ def parseObs (s : String) : Option Obs :=
   | "snap" :: fields => (fields.foldlM parseSnapField emptySnap).map .snap
   | "cap" :: _ => some .ok
   | "policy" :: _ => some .ok
+  | "dropped" :: _ => some .ok
   | "skt" :: _ => some .ok
   | "len" :: _ => some .ok
   | "dump" :: _ => some .ok
